@@ -72,9 +72,9 @@ def cargo_build(binname, profile):
     return os.path.join(TARGET, profile, binname), dt
 
 
-def record(binpath, tier, seed, outfile, extra=None, timeout=1800):
+def record(binpath, tier, seed, outfile, extra=None, timeout=1800, env=None):
     cmd = [binpath, "--tier", tier, "--seed", str(seed), "--out", outfile] + (extra or [])
-    out, dt = run(cmd, timeout=timeout, check=False)
+    out, dt = run(cmd, timeout=timeout, check=False, env=dict(os.environ, **(env or {})))
     if not os.path.exists(outfile):
         raise ToolError("recorder produced no trace: " + out[-2000:])
     return dt
@@ -87,10 +87,11 @@ def shard_file(path, outdir, tag):
         n = 0
         cur = None
         for line in f:
-            if n % SHARD == 0:
+            # a history event (it defines register "dst") may not start a shard unless it starts a history
+            if (cur is None or shards[-1][2] >= SHARD) and ('"dst":' not in line or '"reset":1' in line):
                 if cur:
                     cur.close()
-                p = os.path.join(outdir, "%s_%03d.ndjson" % (tag, n // SHARD))
+                p = os.path.join(outdir, "%s_%03d.ndjson" % (tag, len(shards)))
                 cur = open(p, "w")
                 shards.append([p, n, 0])
             cur.write(line)
@@ -268,10 +269,20 @@ def check_r2(prop, tier, seed, spec):
     r1_futs = [(r, pool.submit(run_model, os.path.join(TLA, r["spec"]), os.path.join(TLA, r["cfg"]), r.get("workers", 6), r.get("timeout", 900), wdir, r.get("heap", "8g"))) for r in r1_specs]
 
     outcome_counts = {}
+    rec_env = {}
+    if "pre" in spec:
+        # scenario generation from the specification (R3): TLC enumerates/simulates the state machine
+        pre = spec["pre"](prop, tier, seed, wdir)
+        rec_env = pre.get("env", {})
+        for r in pre.get("models", []):
+            r1_results.append(r)
+            totals["states"] += r["states"]
+            totals["transitions"] += r["transitions"]
+            log("[%s] R3 %s/%s: %d distinct states, %s scenario(s), %.0fs" % (prop, r["spec"], r["cfg"], r["states"], r.get("scenarios", "-"), r["wall"]))
     for profile, label in (("release", "rel"), ("chk", "chk")):
         binpath, bdt = cargo_build(spec["bin"], profile)
         trace = os.path.join(wdir, "trace_%s.ndjson" % label)
-        rdt = record(binpath, tier, seed, trace, extra=spec.get("record_args", {}).get(tier))
+        rdt = record(binpath, tier, seed, trace, extra=spec.get("record_args", {}).get(tier), env=rec_env)
         res, n = validate_trace(trace, wdir, label, spec.get("judges", [prop]))
         totals["events"] += n
         totals["shards"] += len(res)
